@@ -146,8 +146,9 @@ def build_variant(repo, variant):
 
 def prune_cache(variant):
     dirs = sorted(glob.glob(os.path.join(CACHE, variant + '-????????????????')), key=os.path.getmtime, reverse=True)
-    for d in dirs[3:]:
-        shutil.rmtree(d, ignore_errors=True)
+    for d in dirs[4:]:
+        if time.time() - os.path.getmtime(d) > 3600:      # never under a concurrent run that may still be using it
+            shutil.rmtree(d, ignore_errors=True)
     for d in glob.glob(os.path.join(CACHE, '*.tmp*')):
         if time.time() - os.path.getmtime(d) > 3600:
             shutil.rmtree(d, ignore_errors=True)
@@ -256,7 +257,7 @@ def plan(pid, tier):
                         + rc_jobs('h_format', 'c04_parity_mt', 3, 120 if q else 2500))
     P['C05'] = lambda: (sweep_jobs('h_format', 'selftest', 1) + sweep_jobs('h_format', 'c05_tables', 1) + sweep_jobs('h_format', 'c05_encode', 2) + sweep_jobs('h_format', 'c05_encode', 1, variant='asan-nosse')
                         + sweep_jobs('h_format', 'c05_unsupported', 1)
-                        + sweep_jobs('h_codec', 'c05_decode_sweep', 6 if q else 8) + sweep_jobs('h_codec', 'c05_decode_sweep', 4 if q else 8, variant='asan-nosse'))
+                        + sweep_jobs('h_codec', 'c05_decode_sweep', 6 if q else 8) + sweep_jobs('h_codec', 'c05_decode_sweep', 4 if q else 8, variant='asan-nosse') + sweep_jobs('h_codec', 'c05_mt', 2 if q else 4))
     P['C07'] = lambda: (sweep_jobs('h_format', 'selftest', 1) + rc_jobs('h_format', 'c07', 12, 6000 if q else 60000) + sweep_jobs('h_format', 'c07_sweep', 4))
     P['C08'] = lambda: (rc_jobs('h_format', 'c08', 10, 8000 if q else 80000) + sweep_jobs('h_format', 'c08_sweep', 6))
     P['C06'] = lambda: (rc_jobs('h_needed', 'c06', 8, 6000 if q else 80000) + sweep_jobs('h_needed', 'c06_xor_sweep', 4) + sweep_jobs('h_needed', 'c06_rs_sweep', 4 if q else 12))
@@ -285,7 +286,7 @@ RULES = {
     'C02': 'rapidcheck-generated sub-multisets of one stripe incl. beyond tolerance, with decode and reconstruct; sweeps: all 2^n subsets of small codes, all flat-XOR erasure sets of size hd..hd+1 (quick) / hd..m+1 (thorough). Non-trivial: set outside tolerance or unrecoverable by the rank oracle.',
     'C03': 'rapidcheck-generated (configuration, data, erasure set within tolerance, destinations lost/present/out of range) plus sweeps (XOR all |E|<hd x lost destinations; RS every shape |E|=m). Non-trivial: >=2 lost and destination lost, or XOR with >=2 lost.',
     'C04': 'enumerated: all 496 shapes k>=1,m>=1,k+m<=32 - make_systematic_matrix(k,m) entry by entry against L_j(r)/L_j(k) over an independent GF(2^16) (0x1100b), then k-subsets of the library matrix rows inverted (exhaustive up to n=12 quick / n=16 thorough, random subsets above); generated: (k,m,block size,content) -> parity payload bytes from liberasurecode_encode vs closed form on host-order 16-bit words, first parity == XOR of data; the same comparison with 2-6 threads encoding different data at once through own or shared instances (payloads mostly above 1 KiB). Non-trivial: k>=2 (matrix) / k>=2 and two distinct non-zero words (parity).',
-    'C05': 'enumerated: 38 tables x (library bitmaps vs golden equations in both directions, minimum distance by GF(2) rank over all erasure sets <= hd, encode with one non-zero data fragment at a time and with random data for payload sizes 4..4100, every erasure set below hd decoded and reconstructed, SSE2 and portable builds), and every (k,m,hd) in 0..33 x 0..8 x 0..7 outside the 38 refused. Non-trivial: >=2 erasures or a parity rebuilt (decode sweep); every table/encode case.',
+    'C05': 'enumerated: 38 tables x (library bitmaps vs golden equations in both directions, minimum distance by GF(2) rank over all erasure sets <= hd, encode with one non-zero data fragment at a time and with random data for payload sizes 4..4100, every erasure set below hd decoded and reconstructed, SSE2 and portable builds), and every (k,m,hd) in 0..33 x 0..8 x 0..7 outside the 38 refused; per table a multi-threaded run (2 decoders with 2..hd-1 erasures on one instance while 2 threads create and destroy instances of the same shape). Non-trivial: >=2 erasures or a parity rebuilt (decode sweep); every table/encode case.',
     'C07': 'rapidcheck-generated (backend incl. null, shape, w, checksum type incl. MD5, legacy-CRC env, length, content) + one case per shape per backend: every byte of every fragment vs an independent serializer (literal offsets, independent GF and CRC models). Non-trivial: CRC32, length not a multiple of k*wordsize, non-constant data.',
     'C08': 'rapidcheck-generated (backend incl. null, shape, length to 2^20) + dense sweep of all lengths 0..4*k*ws+2 for 40+ configurations: the three size queries vs arithmetic and vs what encode produced; dead/never-issued/negative descriptors refused. Non-trivial: length not a multiple of k*wordsize.',
     'C06': 'enumerated: all 38 flat-XOR tables x all disjoint (R non-empty, X) with |R|+|X|<hd in both list orders; RS n<=8 (quick) / n<=12 (thorough) and ISA-L n<=6/10 x all (R,X) with |R|+|X|<=m; rapidcheck-generated pairs for larger shapes incl. beyond tolerance. Oracle on the returned list (n-int output buffer behind an ASan red zone): termination, range, distinctness, disjointness, sufficiency (RS/ISA: exactly k and reconstruct from only those fragments reproduces each requested fragment; XOR: GF(2) span + XOR of the actual payloads). Beyond tolerance: error or a list passing the same test. Non-trivial: X hits the unconstrained answer, or |R|>=2.',
@@ -428,7 +429,7 @@ MODE_HARNESS['c18_sched'] = ('h_sched', 'asan')
 MODE_HARNESS['c18_sched_exhaustive'] = ('h_sched', 'asan')
 for _m in ['c07', 'c07_sweep', 'c08', 'c08_sweep', 'c04_matrix', 'c04_parity', 'c04_parity_mt', 'selftest', 'c05_tables', 'c05_encode', 'c05_unsupported']:
     MODE_HARNESS[_m] = ('h_format', 'asan')
-for _m in ['c19', 'c19_sweep', 'c19_inv', 'c19_singular', 'c05_decode_sweep', 'c01', 'c01_xor_sweep', 'c01_rs_sweep', 'c01_isa_sweep', 'c02', 'c02_subsets', 'c02_band', 'c03', 'c03_xor_sweep', 'c03_rs_sweep', 'c20']:
+for _m in ['c05_mt', 'c19', 'c19_sweep', 'c19_inv', 'c19_singular', 'c05_decode_sweep', 'c01', 'c01_xor_sweep', 'c01_rs_sweep', 'c01_isa_sweep', 'c02', 'c02_subsets', 'c02_band', 'c03', 'c03_xor_sweep', 'c03_rs_sweep', 'c20']:
     MODE_HARNESS[_m] = ('h_codec', 'asan')
 
 
